@@ -39,7 +39,8 @@ func (p presetVary) ServeHTTP(w http.ResponseWriter, r *http.Request) {
 func serveWithPreset(mw *cors.Middleware, preset []string, q Req) Obs {
 	inner := &countingHandler{body: "ok"}
 	w := newRW()
-	presetVary{preset, mw.Wrap(inner)}.ServeHTTP(w, q.httpReq())
+	w.inner = inner
+	presetVary{preset, wrappedOnce(mw)}.ServeHTTP(w, q.httpReq())
 	return w.obs(inner.calls)
 }
 
@@ -194,6 +195,9 @@ func TestVerif_C10(t *testing.T) {
 			}
 			debug := d == 1
 			mw.SetDebug(debug)
+			if (l.Batch+d)%2 == 0 {
+				poisonRound(mw, allowed[0]) // hostile wrapped handler first (see poisonRound)
+			}
 			for pi, preset := range presets {
 				if pi > 0 && (l.Batch+d+pi)%4 != 0 && !r.Thor {
 					continue
